@@ -415,6 +415,134 @@ def shard(item):
     return T
 
 
+# ------------------------------------------------------------------ (H) histories: compiled conditions / penalties are values
+HIST = [
+    ('x0 <= a*x1 + b', {'a': 2.0, 'b': 1.0}),
+    ('x0 <= a*x1 + b', {'a': -1.0, 'b': 0.5}),
+    ('x0 = q', {'q': 1.0}),
+    ('x0 = q', {'q': -2.0}),
+    ('x0 - x1 >= q\nx1 <= 2', {'q': 0.5}),
+    ('x1 >= 3', None),
+    ('x0 > 2.0', {'tol': 0.25, 'rel': 0.0}),        # disturbers: differential only
+    ('x0 < x1', {'tol': 0.0, 'rel': 0.5}),
+]
+HIST_JUDGED = 6
+HGRID = [-3.0, -1.0, 0.0, 0.5, 1.0, 2.0, 3.0]
+
+
+def hist_build(text, consts):
+    import mystic.symbolic as ms
+    with contextlib.redirect_stdout(io.StringIO()):
+        ineqf, eqf = ms.generate_conditions(text, variables='x', nvars=2, locals=dict(consts) if consts else None)
+        pen = ms.generate_penalty((ineqf, eqf), k=10)
+    return list(ineqf), list(eqf), pen
+
+
+def hist_values(fs, pts):
+    ineqf, eqf, pen = fs
+    out = []
+    for x in pts:
+        row = []
+        for f in ineqf + eqf + [pen]:
+            try:
+                row.append(float(f(list(x))))
+            except Exception as e:
+                row.append('raised %s' % type(e).__name__)
+        out.append(tuple(row))
+    return out
+
+
+def hist_reference(text, consts):
+    import re
+    for name, val in (consts or {}).items():
+        if name not in ('tol', 'rel'):
+            text = re.sub(r'\b%s\b' % re.escape(name), '(%r)' % float(val), text)
+    return R.parse(text, 'x')
+
+
+def shard_history(item):
+    """every ordered sequence of `depth` distinct programs of HIST: after each generate_conditions/generate_penalty every
+    function generated earlier is evaluated on the whole grid again and must give what it gave when it was new; when new,
+    the judged programs must have penalty 0 exactly where every line (with its own constants) holds"""
+    _, first, depth = item
+    T = Tally()
+    pts = [list(p) for p in itertools.product(HGRID, repeat=2)]
+    others = [k for k in range(len(HIST)) if k != first]
+    for tail in itertools.permutations(others, depth - 1):
+        seq = (first,) + tail
+        built = []
+        T.count('traces')
+        for pos, k in enumerate(seq):
+            text, consts = HIST[k]
+            case = {'kind': 'history', 'sequence': list(seq[:pos + 1])}
+            try:
+                fs = hist_build(text, consts)
+            except Exception as e:
+                T.violate({'part': 'history', 'clause': 'build_raised', 'error': type(e).__name__}, case,
+                          'generate_conditions(%r, locals=%r) raised %s: %s' % (text, consts, type(e).__name__, e))
+                break
+            vals = hist_values(fs, pts)
+            built.append((k, fs, vals))
+            T.count('transitions', len(pts))
+            if k < HIST_JUDGED:
+                rels = hist_reference(text, consts)
+                for x, row in zip(pts, vals):
+                    holds = all(r.holds(x, 'exact') for r in rels)
+                    pv = row[-1]
+                    if isinstance(pv, str) or (pv == 0.0) != holds or pv < 0:
+                        T.violate({'part': 'history', 'clause': 'penalty_zero_iff_holds', 'position': 'first' if pos == 0 else 'later'},
+                                  dict(case, x=x),
+                                  'after generating %r: penalty of %r with locals %r at %r is %r while the text %s there'
+                                  % ([HIST[j][0] for j in seq[:pos + 1]], text, consts, x, pv, 'holds' if holds else 'fails'))
+                        break
+            for (j, fj, vj) in built[:-1]:
+                again = hist_values(fj, pts)
+                T.count('transitions', len(pts))
+                if again != vj:
+                    i = [a != b for a, b in zip(again, vj)].index(True)
+                    T.violate({'part': 'history', 'clause': 'changed_by_a_later_build', 'same_text': HIST[j][0] == text,
+                               'later_sets_tolerance': bool(consts and 'tol' in consts)},
+                              dict(case, x=pts[i], earlier=j),
+                              'conditions+penalty of %r (locals %r) gave %r at %r when new, and %r after generate_conditions(%r, locals=%r)'
+                              % (HIST[j][0], HIST[j][1], vj[i], pts[i], again[i], text, consts))
+                    break
+        T.state(('H', seq, tuple(v for _, _, v in built)))
+        if len(set(HIST[k][0] for k in seq)) < len(seq) or any(HIST[k][1] and 'tol' in HIST[k][1] for k in seq[1:]):
+            T.nontriv(('H', seq))
+    T.hist('programs', 'history')
+    if T.n.get('traces'):
+        T.sample({'history': [list(map(str, HIST[k])) for k in ((first,) + tuple(others[:depth - 1]))]})
+    return T
+
+
+def replay_history(case):
+    seq, x = case['sequence'], case['x']
+    out, built = [], []
+    for k in seq:
+        text, consts = HIST[k]
+        fs = hist_build(text, consts)
+        built.append((k, fs, hist_values(fs, [x])))
+        for (j, fj, vj) in built[:-1]:
+            again = hist_values(fj, [x])
+            if again != vj:
+                out.append('%r (locals %r) at %r: %r when new, %r after generating %r (locals %r)'
+                           % (HIST[j][0], HIST[j][1], x, vj[0], again[0], text, consts))
+    k = seq[-1]
+    if k < HIST_JUDGED:
+        text, consts = HIST[k]
+        holds = all(r.holds(x, 'exact') for r in hist_reference(text, consts))
+        pv = built[-1][2][0][-1]
+        if isinstance(pv, str) or (pv == 0.0) != holds:
+            out.append('penalty of %r (locals %r) at %r is %r while the text %s' % (text, consts, x, pv, 'holds' if holds else 'fails'))
+    return out
+
+
+def _dispatch(item):
+    if isinstance(item, tuple) and item and item[0] == 'H':
+        return shard_history(item)
+    return shard(item)
+
+
 def _chunks(seq, k):
     return [seq[i:i + k] for i in range(0, len(seq), k)]
 
@@ -488,11 +616,16 @@ def run(ctx):
         "do not conflict; one-line texts with lhs 2*{0}-{2} go through simplify() first and are judged beyond the tolerance level (1e-20); "
         "lhs {0}*{1} needs a sign case split (C12) and is not part of this clause",
     ]
-    ctx.pmap(shard, items)
+    items += [('H', first, 3 if th else 2) for first in range(len(HIST))]
+    ctx.bounds['history_programs(text,locals)'] = [list(map(str, h)) for h in HIST]
+    ctx.bounds['history_depth'] = 3 if th else 2
+    ctx.pmap(_dispatch, items)
 
 
 def replay(case):
     T = Tally()
+    if case.get('kind') == 'history':
+        return replay_history(case)
     text, variables = case['text'], case['variables']
     # rebuild the (scheme, specs) description from the text
     for scheme in SCHEME:
